@@ -20,19 +20,21 @@ CONSTANTS Families, MaxDepth, Off
 VARIABLES cfg, nfits, probed, act, obs
 vars == <<cfg, nfits, probed, act, obs>>
 
-NPar == [exponential |-> 2, powerlaw |-> 2, peak |-> 3, sinusoid |-> 3, logistic |-> 3, histpeak |-> 2, unbinned |-> 2]
-Kind == [exponential |-> "xy", powerlaw |-> "xy", peak |-> "xy", sinusoid |-> "xy", logistic |-> "xy", histpeak |-> "hist", unbinned |-> "unbinned"]
+NPar == [expoffset |-> 3, exponential |-> 2, powerlaw |-> 2, peak |-> 3, sinusoid |-> 3, logistic |-> 3, histpeak |-> 2, unbinned |-> 2]
+Kind == [expoffset |-> "xy", exponential |-> "xy", powerlaw |-> "xy", peak |-> "xy", sinusoid |-> "xy", logistic |-> "xy", histpeak |-> "hist", unbinned |-> "unbinned"]
 
 Configs ==
-  {c \in [family : Families, errors : {"y", "xy", "ymodelrel", "xymodelrel", "none"}, dea : {"nonlinear", "iterative"},
-          fixed : 0..3, limited : 0..3, limit : {"inside", "active"}] :
+  {c \in [family : Families, errors : {"y", "xy", "xmodel", "ymodelrel", "xymodelrel", "none"}, dea : {"nonlinear", "iterative"},
+          fixed : 0..3, limited : 0..3, limit : {"inside", "active", "zero"}] :
       /\ c.fixed <= NPar[c.family] /\ c.limited <= NPar[c.family]
       /\ (c.fixed # 0 => c.fixed # c.limited)
       /\ (c.limited = 0 => c.limit = "inside")
       /\ (Kind[c.family] = "xy" => c.errors # "none")
       /\ (Kind[c.family] # "xy" => (c.errors = "none" /\ c.dea = "nonlinear"))
       /\ (c.dea = "iterative" => c.errors \in {"xy", "ymodelrel", "xymodelrel"})
-      /\ (c.limit = "active" => c.fixed = 0) }
+      /\ (c.limit = "active" => c.fixed = 0)
+      \* a limit of exactly 0 that is active: only the family whose third parameter (an offset) has a negative unconstrained optimum
+      /\ (c.limit = "zero" => (c.family = "expoffset" /\ c.limited = 3 /\ c.fixed = 0)) }
 
 Bounded(name) == TLCGet("level") <= MaxDepth /\ name \notin Off
 Init == cfg \in Configs /\ nfits = 0 /\ probed = {} /\ act = [name |-> "Init"] /\ obs = [kind |-> "none"]
